@@ -499,15 +499,28 @@ BATCH_STATE_TERMS = ('open', 'closed', 'complete', 'running', 'cancelled', 'fail
 T0, T1 = '2000-01-01T00:00:00Z', '2100-01-01T00:00:00Z'
 
 
+CORE = 6   # pairs among the first CORE terms of an alphabet are sent in both tiers, the remaining pairs in the thorough tier only
+
+
 def _pairs(alphabet):
-    return [(a, b) for a in alphabet for b in alphabet if a != b]
+    core = [(a, b) for a in alphabet[:CORE] for b in alphabet[:CORE] if a != b]
+    return core + [(a, b) for a in alphabet for b in alphabet if a != b and (a, b) not in core]
+
+
+def _extra_pairs(alphabet, sep):
+    core = {(a, b) for a in alphabet[:CORE] for b in alphabet[:CORE]}
+    return {f'{a}{sep}{b}' for a in alphabet for b in alphabet if a != b and (a, b) not in core}
+
+
+Q_EXTRA = set()   # queries sent in the thorough tier only
 
 
 def q_jobs_v1():
     """v1 job search: blank separated terms, '!' negates."""
     singles = list(JOB_STATE_TERMS) + ['!' + t for t in JOB_STATE_TERMS] + \
         ['name=j1', '!name=j1', 'kind=x', 'name=nope', 'job_id=1', '!job_id=1', 'has:name', '!has:name', 'has:nope', 'bogus', '!bogus']
-    alphabet = ('live', 'bad', 'done', 'success', '!live', '!done', 'name=j1', 'has:kind', 'job_id=2')
+    alphabet = ('live', 'bad', 'done', '!live', 'name=j1', 'has:kind', 'success', '!done', 'job_id=2')
+    Q_EXTRA.update(_extra_pairs(alphabet, ' '))
     return singles + [f'{a} {b}' for a, b in _pairs(alphabet)] + ['live bad done', 'done !bad name=j1']
 
 
@@ -522,7 +535,8 @@ def q_jobs_v2():
         'duration >= 0', 'duration < 1', 'duration = x', 'cost >= 0', 'cost < $1', 'cost =~ 1', 'exit_code = 0', 'exit_code != 0', 'exit_code > x',
         '"j1"', '"x"', '"j', 'j', 'nope', 'j"', 'name = j1', 'name != j1', 'name =~ j', 'name !~ j', 'kind = x', 'name > j1',
         'two words', 'a = b = c']
-    alphabet = ('state = live', 'state = bad', 'state = done', 'state != live', 'state != done', 'name = j1', 'job_id >= 2', 'j', '"x"')
+    alphabet = ('state = live', 'state = bad', 'state = done', 'state != live', 'name = j1', 'j', 'state != done', 'job_id >= 2', '"x"')
+    Q_EXTRA.update(_extra_pairs(alphabet, '\n'))
     return singles + [f'{a}\n{b}' for a, b in _pairs(alphabet)] + [f'start_time >= {T0}\nend_time <= {T1}', f'end_time <= {T1}\nstart_time > {T0}\nstate = done',
                                                                   'state = live\nstate = bad\nstate = done']
 
@@ -531,7 +545,8 @@ def q_batches_v1():
     singles = list(BATCH_STATE_TERMS) + ['!' + t for t in BATCH_STATE_TERMS] + [
         'name=n-tb2', '!name=n-tb2', 'team=x', 'team=y', 'has:name', '!has:name', 'has:nope', 'user:u1', 'user:u2', '!user:u1', 'user:ui',
         'billing_project:bp', 'billing_project:bp2', '!billing_project:bp', '!billing_project:bp2', 'billing_project:nope', 'bogus', '!bogus']
-    alphabet = ('user:u2', '!user:u1', 'billing_project:bp2', '!billing_project:bp', 'complete', '!running', 'success', 'has:team', 'team=y')
+    alphabet = ('user:u2', '!user:u1', 'billing_project:bp2', '!billing_project:bp', 'complete', 'team=y', '!running', 'success', 'has:team')
+    Q_EXTRA.update(_extra_pairs(alphabet, ' '))
     return singles + [f'{a} {b}' for a, b in _pairs(alphabet)] + ['complete success !failure', '!billing_project:bp user:u2 team=y']
 
 
@@ -545,7 +560,8 @@ def q_batches_v2():
         'duration >= 0', 'duration < 1', 'duration = x', 'cost >= 0', 'cost < $1', 'cost =~ 1',
         '"n-tb2"', '"y"', '"n', 'n-tb', 'nope', 'n"', 'name = n-tb2', 'name != n-tb2', 'name =~ tb', 'name !~ tb', 'team = y', 'name > n',
         'two words', 'a = b = c']
-    alphabet = ('user = u2', 'user != u1', 'billing_project = bp2', 'billing_project != bp', 'state = complete', 'state != running', 'team = y', 'tb', '"y"')
+    alphabet = ('user = u2', 'user != u1', 'billing_project = bp2', 'billing_project != bp', 'state = complete', 'team = y', 'state != running', 'tb', '"y"')
+    Q_EXTRA.update(_extra_pairs(alphabet, '\n'))
     return singles + [f'{a}\n{b}' for a, b in _pairs(alphabet)] + [f'start_time >= {T0}\nend_time <= {T1}', f'end_time <= {T1}\nstart_time > {T0}\nuser = u2']
 
 
@@ -601,7 +617,7 @@ def request_variants(method, path, cls, target):
             # search queries (tag 'q'): v1 syntax on the v1alpha API, v2 syntax on v2alpha and on the UI page (CURRENT_QUERY_VERSION)
             v2 = 'v2alpha' in path or not path.startswith('/api/')
             for qs in (q_jobs_v2() if v2 else q_jobs_v1()):
-                add(f'q={qs!r}', query={'q': qs}, tag='q')
+                add(f'q={qs!r}', query={'q': qs}, tag='q+' if qs in Q_EXTRA else 'q')
                 if path.endswith('/jobs') and any(t in qs for t in ('live', 'bad', 'done')) and ' ' not in qs.replace(' = ', '=').replace(' != ', '!=') and '\n' not in qs:
                     add(f'recursive, q={qs!r}', query={'q': qs, 'recursive': 'true'}, tag='q')
             if path.endswith('/jobs'):
@@ -639,7 +655,7 @@ def request_variants(method, path, cls, target):
             add('other user', query={'q': 'user = u2' if v2 else 'user:u2'})
             add('foreign project', query={'q': 'billing_project = bp2' if v2 else 'billing_project:bp2'})
             for qs in (q_batches_v2() if v2 else q_batches_v1()):
-                add(f'q={qs!r}', query={'q': qs}, tag='q')
+                add(f'q={qs!r}', query={'q': qs}, tag='q+' if qs in Q_EXTRA else 'q')
             add('page before batch 7', query={'q': '', 'last_batch_id': '7'}, tag='q')
     elif cls == 'list-billing':
         add('since 2024', query={'start': '01/01/2024'})
@@ -942,7 +958,7 @@ def batch_scoped_requests(fe, target):
         cls = classify(m, p) if m else None
         if cls in ('batch-read', 'batch-cancel-delete', 'batch-write'):
             for v, var in enumerate(request_variants(m, p, cls, target) or ()):
-                if var[5] != 'q':
+                if var[5] not in ('q', 'q+'):
                     out.append((i, v))
     return out
 
@@ -1120,7 +1136,7 @@ def all_cases(tier='quick'):
                 break
             for caller in callers:
                 for v in range(len(vs)):
-                    if vs[v][5] == 'q' and tier == 'quick' and target not in Q_TARGETS_QUICK.get(caller, ()):
+                    if tier == 'quick' and (vs[v][5] == 'q+' or (vs[v][5] == 'q' and target not in Q_TARGETS_QUICK.get(caller, ()))):
                         continue
                     cases.append((i, caller, target, v))
     return cases, unclassified, norequest
@@ -1286,9 +1302,9 @@ def check(tier, seed, procs):
         'verdicts_per_class': {c: _count(('violation' if r['viol'] else 'outside-refused' if not r['may'] else 'inside-ok')
                                          for r in rows if r['class'] == c) for c in sorted(by_class)},
         'replayed_token_cases_where_the_api_showed_the_token': sum(1 for r in rows if r.get('token_shown_by_api')),
-        'search_query_cases': sum(1 for r in rows if r['tag'] == 'q'),
-        'search_query_cases_by_answer': _count(r['status'] for r in rows if r['tag'] == 'q'),
-        'search_query_cases_that_listed_rows': sum(1 for r in rows if r['tag'] == 'q' and r.get('listed')),
+        'search_query_cases': sum(1 for r in rows if r['tag'] in ('q', 'q+')),
+        'search_query_cases_by_answer': _count(r['status'] for r in rows if r['tag'] in ('q', 'q+')),
+        'search_query_cases_that_listed_rows': sum(1 for r in rows if r['tag'] in ('q', 'q+') and r.get('listed')),
     }
     vac = None
     if len(table) < 40 or served_insiders < 100 or changed_insiders < 20 or by_verdict.get('outside: refused, state unchanged', 0) < 500:
